@@ -307,6 +307,13 @@ def _reaction_from_dict(reaction: Dict, model: Model) -> Reaction:
 
     """
     new_reaction = Reaction()
+    # Set both bounds together: one at a time, a bound can conflict with the
+    # other bound's default value.
+    if "lower_bound" in reaction and "upper_bound" in reaction:
+        new_reaction.bounds = (
+            float(reaction["lower_bound"]),
+            float(reaction["upper_bound"]),
+        )
     for k, v in reaction.items():
         if k in {"objective_coefficient", "reversibility", "reaction"}:
             continue
